@@ -17,10 +17,12 @@ def keepalive(g, rounds, total_ms):
     """unanswered calls between an unrelated pair every ~T/3 for total_ms"""
     a, b = g.slots[-1], g.slots[-2]
     n = int(total_ms / (T / 3.0))
+    # the callee must be reachable under the policy: it owns a name below the allowed prefix
+    rounds.append({'ops': {str(b): [{'k': 'req', 'n': 'com.example.Keep', 'f': 0}]}})
     for i in range(n):
         g.ser[a] += 1
         rounds.append({'ops': {str(a): [{'k': 'sleep', 'ms': T // 3},
-                                         {'k': 'send', 'ty': 1, 'dst': {'slot': b}, 'path': '/k', 'ifc': 'com.example.I',
+                                         {'k': 'send', 'ty': 1, 'dst': 'com.example.Keep', 'path': '/k', 'ifc': 'com.example.I',
                                           'mem': 'Ma', 'ser': g.ser[a], 'sig': '', 'body': []}]}})
 
 
@@ -29,6 +31,7 @@ def gen(rng, i):
     cfg = {'policy_ctxs': policygen.SYSTEM_LIKE, 'maxReplies': rng.choice([2, 3, 100000])}
     if timed:
         cfg['replyTimeoutMs'] = T
+        cfg['maxReplies'] = 100000      # (a small limit would starve the keep-alive train)
     g = gen_bus.Gen(rng, nslots=4 if timed else 3, nnames=2, w=W, cfg=cfg, odd_rules=0.0)
     scn = g.scenario(nrounds=rng.choice([8, 12]) if timed else rng.choice([12, 16]), concurrency=0.45, burst=0.3)
     if timed:
